@@ -155,6 +155,10 @@ impl Model {
                 res
             }
         };
+        // whatever the step printed (a /next can run a print) goes out before the next line is read
+        if let Some(s) = self.xs.read_stdout() {
+            self.out.push_str(&s);
+        }
         if let Err(e) = &res {
             let s = self.xs.pretty_error().unwrap_or_else(|| format!("{}", e));
             self.err.push_str(&s);
